@@ -87,5 +87,6 @@ LEVEL_TEXT = ("Theorems C05_accept_iff_rules, C05_none_iff_moov_first, C05_stric
 LEVEL_NOTE = ("Trusted: Coq kernel; the hand-written model (Header/Box/San.v) and its correspondence batch; the specification Spec.v as the reading "
               "of the property text (version-0 table = version 0 and flags 0; cumulative_mdat_box_size takes part in the tiling); extraction + OCaml "
               "driver; the Rust harness. No axioms. Limits >= 2^32 are outside the statement (sampled only).")
-TECHNIQUE = "Coq proof about a hand-written model + extracted-model/Rust differential check + extracted specification as oracle"
+TECHNIQUE = ("Coq proof about a hand-written model whose top-level box dispatch, box-type strings and accessor chain are regenerated from the source + "
+             "extracted-model/Rust differential check + extracted specification as oracle")
 DESIGN_REF = "DESIGN.md section 7 (C05)"
